@@ -155,3 +155,279 @@ def ok6_where(image):
     out = numpy.where(image > 0, image, 0)
     out[0] = 1
     return float(out.std())
+
+
+# ---------------------------------------------------------------------------------------------------------------------
+# round 5 (generator audit): further idioms T2 already classifies correctly, fixed here as regression cases.
+# Idioms T2 still judges PURE although they modify the argument / keep state (reported, NOT in this corpus, T2 is a shared file):
+#   operator.iadd(image, 1); numpy.nditer(image, op_flags=["readwrite"]) writes; functools.lru_cache on a function returning an
+#   array; numpy.lib.stride_tricks.as_strided(image, ...) / numpy.frombuffer(image, ...) treated as fresh; setattr(image, "shape", ..);
+#   scipy.linalg.inv(image, overwrite_a=True) (overwrite_* keywords); del J[0]; numpy.squeeze(image)[0] = 0 (the FUNCTION squeeze);
+#   a nested def that writes its own parameter, called with the argument; map(lambda r: r.fill(0), image).
+# Idioms T2 flags although they are pure (conservative, harmless as long as the library does not use them): writing into a
+# fancy-indexed / boolean-masked copy (image[[0, 1]], image[image > 0]); list(J) followed by append.
+import numpy as np
+_COUNT = 0
+_LAST = None
+_CACHE = {}
+
+def m30_for_rows_inplace(image):
+    for row in image:
+        row -= row.min()
+    return float(image.std())
+
+def m31_tuple_unpack_views(image):
+    a, b = image
+    a *= 2
+    return float(b.std())
+
+def m32_flat_assign(image):
+    image.flat[0] = 0
+    return 0.0
+
+def m33_real_attr_assign(image):
+    image.real = 0
+    return 0.0
+
+def m34_T_write(image):
+    image.T[0] = 0
+    return 0.0
+
+def m35_shape_attr_assign(image):
+    image.shape = (-1,)
+    return float(image.std())
+
+def m37_ndarray_dunder_iadd(image):
+    image.__iadd__(1)
+    return 0.0
+
+def m39_einsum_out(image):
+    numpy.einsum("ij->ij", image, out=image)
+    return 0.0
+
+def m40_global_counter(image):
+    global _COUNT
+    _COUNT += 1
+    return float(image.std()) * _COUNT
+
+def m41_global_last_result(image):
+    global _LAST
+    if _LAST is None:
+        _LAST = image.std()
+    return float(_LAST)
+
+def m42_mutable_default(image, cache={}):
+    cache[image.shape] = image.std()
+    return float(len(cache))
+
+def m43_mutable_default_list(image, seen=[]):
+    seen.append(image.shape)
+    return float(len(seen))
+
+def m44_cache_dict_setdefault(image):
+    return _CACHE.setdefault(image.shape, image.std())
+
+def m46_split_views(image):
+    parts = numpy.split(image, 2)
+    parts[0][...] = 0
+    return 0.0
+
+def m47_hsplit_views(image):
+    a, b = numpy.hsplit(image, 2)
+    b += 1
+    return 0.0
+
+def m50_memoryview(image):
+    mv = memoryview(image)
+    mv[0] = 0
+    return 0.0
+
+def m53_byteswap_inplace(image):
+    image.byteswap(inplace=True)
+    return 0.0
+
+def m54_walrus_alias(image):
+    if (w := image) is not None:
+        w[0] = 0
+    return 0.0
+
+def m55_starred_alias(image, *rest):
+    for r in rest:
+        r[0] = 0
+    return 0.0
+
+def m56_kwargs_alias(image, **kw):
+    kw["out"][0] = 0
+    return 0.0
+
+def m57_list_of_views(image):
+    views = [image[i] for i in range(2)]
+    views[0][...] = 0
+    return 0.0
+
+def m58_dict_of_views(image):
+    d = {"a": image}
+    d["a"][0] = 0
+    return 0.0
+
+def m59_zip_rows(image, other):
+    for a, b in zip(image, other):
+        a += b
+    return 0.0
+
+def m60_enumerate_rows(image):
+    for i, row in enumerate(image):
+        row[0] = i
+    return 0.0
+
+def m61_np_alias_module(image):
+    np.subtract(image, 1, out=image)
+    return 0.0
+
+def m62_matmul_out(image):
+    numpy.matmul(image, image, out=image)
+    return 0.0
+
+def m63_take_out(image):
+    numpy.take(image, [0], out=image[:1])
+    return 0.0
+
+def m64_ravel_method_write(image):
+    image.ravel()[0] = 0
+    return 0.0
+
+def m65_subscript_augassign(image):
+    image[0] += 1
+    return 0.0
+
+def m66_slice_assign(image):
+    image[...] = 0
+    return 0.0
+
+def m68_list_append_param(J):
+    J.append(1)
+    return 0.0
+
+def m69_list_sort_param(J):
+    J.sort()
+    return 0.0
+
+def m70_dict_update_param(d):
+    d.update(a=1)
+    return 0.0
+
+def m71_pop_param(J):
+    return J.pop()
+
+def m72_ternary_alias(image, flag):
+    w = image if flag else image.copy()
+    w[0] = 0
+    return 0.0
+
+def m73_try_alias(image):
+    try:
+        w = image.reshape(-1)
+    except ValueError:
+        w = image.copy()
+    w[0] = 0
+    return 0.0
+
+def m74_while_alias(image):
+    w = image.copy()
+    n = 0
+    while n < 2:
+        w[0] = 0
+        w = image
+        n += 1
+    return 0.0
+
+def m75_return_inplace_method(image):
+    return image.clip(0, 1, out=image)
+
+def m76_np_random_seed(image):
+    numpy.random.seed(0)
+    return 0.0
+
+def m77_augassign_attr_of_param(obj):
+    obj.data -= 1
+    return 0.0
+
+def m79_moveaxis_write(image):
+    numpy.moveaxis(image, 0, -1)[0] = 0
+    return 0.0
+
+def m80_broadcast_arrays(image):
+    a, = numpy.broadcast_arrays(image)
+    a.flags.writeable = True
+    a[0] = 0
+    return 0.0
+
+def m81_atleast_2d_write(image):
+    w = numpy.atleast_2d(image)
+    w[0] = 0
+    return 0.0
+
+def m82_with_errstate_write(image):
+    with numpy.errstate(all="ignore"):
+        image /= image.max()
+    return 0.0
+
+def m85_imag_write(image):
+    image.imag[0] = 0
+    return 0.0
+
+def m86_view_dtype_write(image):
+    image.view(numpy.uint8)[0] = 0
+    return 0.0
+
+def m87_copyto(image):
+    numpy.copyto(image, 0)
+    return 0.0
+
+def m88_partition(image):
+    image.partition(2)
+    return 0.0
+
+def m89_resize(image):
+    image.resize((2, 2), refcheck=False)
+    return 0.0
+
+def ok12_arith_then_out(image):
+    w = image * 2
+    numpy.sqrt(w, out=w)
+    return float(w.std())
+
+def ok13_zeros_like_fill(image):
+    w = numpy.zeros_like(image)
+    w += image
+    return float(w.std())
+
+def ok14_concatenate_copy(image):
+    w = numpy.concatenate([image, image])
+    w[0] = 0
+    return float(w.std())
+
+def ok15_sorted_copy(image):
+    w = numpy.sort(image, axis=None)
+    w[0] = 0
+    return float(w.std())
+
+def ok17_local_dict(image):
+    d = {}
+    d["a"] = image.std()
+    return float(d["a"])
+
+def ok18_meshgrid(image):
+    x, y = numpy.meshgrid(numpy.arange(3), numpy.arange(3))
+    x -= 1
+    return float(image.std() + x.sum())
+
+def ok19_fft_copy(image):
+    w = numpy.fft.fft2(image)
+    w *= 2
+    return float(abs(w).sum())
+
+def ok20_tril_copy(image):
+    w = numpy.tril(image)
+    w[0] = 0
+    return float(w.std())
